@@ -26,6 +26,12 @@ MISSED_FIRST = {
     "C16-b": "server-side resume position without back-up — not visible to C16's rules; first version of C15-R6 only followed resume positions that are members/reference parameters; caught after the rule followed local copies of persisted fields",
     "C19-a": "merged bounds check one field short — first run ended as ANALYSIS-BROKEN (call-count floor) instead of a violation; floor lowered, C19-R1 reports the two unguarded reads",
 }
+MISSED_FIRST.update({
+    "C13-d": "number literals converted through a 64-byte stack buffer — missed (no rule looked at what the converters are given); caught after C13-R6 (numeric conversions operate on the whole scanned literal) was added",
+    "C19-c": "resume offset overwritten at every compression-pointer hop — missed; caught after the 'resume position fixed at the first pointer' clause was added to C19-R2",
+    "C14-c": "end-tag name compared over name.size() bytes only — first caught only as a shape mismatch ('comparison with back() not found'); the clause now classifies the comparison (equal / prefix / unknown) and reports the prefix comparison as such",
+    "C14-d": "depth limit tested after the self-closing early return — first caught only through the ++/-- shape rule; C14-R3 now requires every start/empty-element token to be behind the maxDepth test and the accounting rule compares net depth change with push/pop",
+})
 CROSS = {"C16-b": ["C15"]}
 SUPERSEDED = {
     "C15-b": "the try/catch it narrows was removed by fix 89c0d74 (strict chunk-size parser no longer throws); evaluated on the tree before that fix: caught by C15-R4. The equivalent change on today's tree is mutant mutants/C15/m10-server-catch-narrow.diff.",
